@@ -662,3 +662,41 @@ func doRPC(h func(*fasthttp.RequestCtx), body string) (int, string) {
 }
 
 var _ = testing.Short
+
+// pollCancelCtx is a context that reports cancellation from its at-th poll on (Done / Err calls are the polls; at = 0:
+// cancelled from the start).  polls() tells how often it was asked.
+type pollCancelCtx struct {
+	context.Context
+	mu   sync.Mutex
+	n    int
+	at   int
+	err  error
+	done chan struct{}
+}
+
+func newPollCancelCtx(at int) *pollCancelCtx {
+	c := &pollCancelCtx{Context: context.Background(), at: at, done: make(chan struct{})}
+	if at <= 0 {
+		c.err = context.Canceled
+		close(c.done)
+	}
+	return c
+}
+
+func (c *pollCancelCtx) poll() {
+	c.mu.Lock()
+	defer c.mu.Unlock()
+	c.n++
+	if c.err == nil && c.at >= 0 && c.n >= c.at {
+		c.err = context.Canceled
+		close(c.done)
+	}
+}
+func (c *pollCancelCtx) Done() <-chan struct{} { c.poll(); return c.done }
+func (c *pollCancelCtx) Err() error {
+	c.poll()
+	c.mu.Lock()
+	defer c.mu.Unlock()
+	return c.err
+}
+func (c *pollCancelCtx) polls() int { c.mu.Lock(); defer c.mu.Unlock(); return c.n }
